@@ -335,6 +335,17 @@ func F2(thorough bool) []*Program {
 				fn("NewT0", []string{"*T4", "*T5"}, []string{"*T0"}, false),
 			}}}})
 	}
+	// Async around the expansion of a struct provided by value
+	for _, e := range []bool{false, true} {
+		add(&Program{Desc: fmt.Sprintf("async-struct by value err=%v", e), Types: typeNames(5), Structs: map[string][]string{"S0": {"F0 *T1", "F1 *T2"}}, Decls: []Decl{{
+			Name: "InitP", Request: "*T0", Provs: []Prov{
+				fn("NewS0", nil, []string{"S0"}, e),
+				{Kind: KStruct, Struct: "S0", Fields: []string{"F0", "F1"}, FTypes: []string{"*T1", "*T2"}, Async: true},
+				fn("NewT3", []string{"*T1"}, []string{"*T3"}, false),
+				fn("NewT4", []string{"*T2"}, []string{"*T4"}, false),
+				fn("NewT0", []string{"*T3", "*T4"}, []string{"*T0"}, false),
+			}}}})
+	}
 	// the same behind an independent Async chain that occupies the calling goroutine, fields
 	// consumed by the root directly or through providers
 	for _, e := range []bool{false, true} {
